@@ -70,10 +70,16 @@ func (h *multidbHandler) GetLoggedUser(ctx context.Context) (sql.User, error) {
 		}
 	}
 
-	permCode := user.WhichPermission(db.GetName())
+	perm := sql.PermissionFromCode(user.WhichPermission(db.GetName()))
+	if db.GetName() == SystemDBName {
+		// systemdb is always read-only from external access (see getDBFromCtx),
+		// also for statements that reach the engine through a session transaction
+		perm = sql.PermissionReadOnly
+	}
+
 	return &User{
 		username:      user.Username,
-		perm:          sql.PermissionFromCode(permCode),
+		perm:          perm,
 		sqlPrivileges: privileges,
 	}, nil
 }
